@@ -227,7 +227,8 @@ CLAIMED = {
     'C14': dict(engine='pyvc+coherence', technique=f'{_T} (find_peaks candidate mask, brightest '
                                                    f'selection, configuration) + {_B}',
                 text='Proved: find_peaks candidates are the unmasked, non-border, non-NaN pixels '
-                     'above threshold that equal their neighbourhood maximum; `brightest` keeps '
+                     'above threshold that equal their neighbourhood maximum, reported with x = column, '
+                     'y = row and the data value at that pixel; `brightest` keeps '
                      'min(N, n) distinct rows sorted by decreasing flux with no dropped row '
                      'brighter than a kept one (all three finders); apply_filters keeps a row iff its '
                      'reported sharpness, roundness and peak lie within the inclusive bounds (DAO, '
